@@ -71,6 +71,37 @@ class RecStream(io.BytesIO):
         return super().readline(n)
 
 
+class DevStream(RecStream):
+    """Stream whose answers deviate at chosen call indices: a read(n) or readline() answered short
+    (fewer bytes than asked although more data follows - e.g. a serial timeout).  devs: {call index: length}."""
+
+    def __init__(self, data: bytes, devs: dict):
+        super().__init__(data)
+        self.devs = devs
+        self.deviated = 0
+
+    def read(self, n=-1):
+        i = self.calls
+        if i in self.devs and n is not None and n > 1:
+            k = max(1, min(self.devs[i], n - 1))
+            self.deviated += 1
+            return super().read(k)
+        return super().read(n)
+
+    def readline(self, n=-1):
+        i = self.calls
+        if i in self.devs:
+            pos = self.tell()
+            line = super().readline(n)
+            k = max(1, min(self.devs[i], len(line) - 1))
+            if len(line) > 1:
+                self.deviated += 1
+                self.seek(pos + k)
+                return line[:k]
+            return line
+        return super().readline(n)
+
+
 def sig(parsed):
     """Comparable form of a parsed item (O3): type name + text + bytes."""
     if parsed is None:
